@@ -1,3 +1,4 @@
+import json
 """E3 rules that need only the crate-level facts and the effect closures:
 CRATEGRAPH, REACH, TYPECLOSURE (C06) and CENSUS (C02/C13/C17)."""
 from .facts import ty_mentions, MU, ty_is_mu
@@ -123,10 +124,16 @@ UNSAFE_ALLOWED = {
     # raw-pointer spellings of read / write / drop through a MaybeUninit::as_ptr()/as_mut_ptr() pointer
     'core::ptr::const_ptr::<impl *const T>::read', 'core::ptr::mut_ptr::<impl *mut T>::read', 'core::ptr::read',
     'core::ptr::drop_in_place', 'core::ptr::mut_ptr::<impl *mut T>::write', 'core::ptr::write',
+    'core::ptr::mut_ptr::<impl *mut T>::add', 'core::ptr::const_ptr::<impl *const T>::add',
+    'core::ptr::copy_nonoverlapping', 'core::intrinsics::copy_nonoverlapping', 'core::ptr::copy',
 }
-TAME_SOURCES = {'core::mem::maybe_uninit::MaybeUninit::<T>::as_ptr', 'core::mem::maybe_uninit::MaybeUninit::<T>::as_mut_ptr'}
+TAME_SOURCES = {'core::mem::maybe_uninit::MaybeUninit::<T>::as_ptr', 'core::mem::maybe_uninit::MaybeUninit::<T>::as_mut_ptr',
+                'core::slice::<impl [T]>::as_mut_ptr', 'core::slice::<impl [T]>::as_ptr',
+                'core::ptr::mut_ptr::<impl *mut T>::add', 'core::ptr::const_ptr::<impl *const T>::add'}
+TAME_PASS = {'core::ptr::mut_ptr::<impl *mut T>::add', 'core::ptr::const_ptr::<impl *const T>::add'}
 TAME_SINKS = {'core::ptr::const_ptr::<impl *const T>::read', 'core::ptr::mut_ptr::<impl *mut T>::read', 'core::ptr::read',
-              'core::ptr::drop_in_place', 'core::ptr::mut_ptr::<impl *mut T>::write', 'core::ptr::write'}
+              'core::ptr::drop_in_place', 'core::ptr::mut_ptr::<impl *mut T>::write', 'core::ptr::write',
+              'core::ptr::copy_nonoverlapping', 'core::intrinsics::copy_nonoverlapping', 'core::ptr::copy'}
 
 
 def tame_raw_locals(b):
@@ -142,6 +149,32 @@ def tame_raw_locals(b):
         if pl is not None:
             return ('proj', pl['local'])
         return None
+    def scan_place(pl):
+        if pl is not None and pl['local'] in raw and pl['proj']:
+            bad.add(pl['local'])
+
+    def scan_op(o):
+        scan_place(o.get('copy') or o.get('move'))
+    for blk in b.blocks:
+        for s in blk['stmts']:
+            if s['k'] == 'assign':
+                scan_place(s['place'])
+                rv0 = s['rv']
+                k0 = next(iter(rv0))
+                v0 = rv0[k0]
+                if k0 == 'use':
+                    scan_op(v0)
+                elif k0 in ('ref', 'rawptr'):
+                    scan_place(v0['place'])
+                elif k0 == 'discr':
+                    scan_place(v0)
+        t0 = blk['term']
+        if t0['k'] == 'call':
+            for o in t0['operands']:
+                scan_op(o)
+            scan_place(t0['dest'])
+        elif t0['k'] == 'drop':
+            scan_place(t0['place'])
     for blk in b.blocks:
         for s in blk['stmts']:
             if s['k'] != 'assign':
@@ -150,8 +183,17 @@ def tame_raw_locals(b):
             rv = s['rv']
             k = next(iter(rv))
             srcs = []
+            same_ptr_cast = False
+            if k == 'cast' and rv['cast']['kind'] == 'PtrToPtr':
+                pl0 = rv['cast']['op'].get('move') or rv['cast']['op'].get('copy')
+                st0 = b.locals[pl0['local']]['ty'] if pl0 and not pl0['proj'] else None
+                dt0 = rv['cast']['ty']
+                same_ptr_cast = bool(st0 and st0.get('k') == 'rawptr' and dt0.get('k') == 'rawptr' and
+                                     json.dumps(st0.get('to'), sort_keys=True) == json.dumps(dt0.get('to'), sort_keys=True))
             if k == 'use':
                 srcs = [local_of(rv['use'])]
+            elif same_ptr_cast:
+                srcs = [local_of(rv['cast']['op'])]
             else:
                 # any other rvalue that defines or reads a raw local is not tame
                 used = set()
@@ -182,7 +224,7 @@ def tame_raw_locals(b):
                 if isinstance(l, tuple):
                     if l[1] in raw:
                         bad.add(l[1])
-                elif l in raw and not (name in TAME_SINKS and i == 0):
+                elif l in raw and not ((name in TAME_SINKS and i in (0, 1)) or (name in TAME_PASS and i == 0)):
                     bad.add(l)
         elif t['k'] in ('switch', 'assert', 'drop'):
             used = set()
@@ -198,8 +240,8 @@ def tame_raw_locals(b):
         changed = False
         for blk in b.blocks:
             for s in blk['stmts']:
-                if s['k'] == 'assign' and 'use' in s['rv']:
-                    src = local_of(s['rv']['use'])
+                if s['k'] == 'assign' and ('use' in s['rv'] or ('cast' in s['rv'] and s['rv']['cast']['kind'] == 'PtrToPtr')):
+                    src = local_of(s['rv']['use'] if 'use' in s['rv'] else s['rv']['cast']['op'])
                     dst = s['place']['local']
                     if not isinstance(src, tuple) and src in raw and dst in raw:
                         if (src in bad) != (dst in bad):
@@ -240,6 +282,15 @@ def census(facts):
                 if s['k'] == 'assign' and 'cast' in s['rv']:
                     kind = s['rv']['cast']['kind']
                     n += 1
+                    if kind == 'PtrToPtr':
+                        # a cast between *mut T and *const T of the same pointee changes nothing
+                        op = s['rv']['cast']['op']
+                        pl = op.get('move') or op.get('copy')
+                        src = b.locals[pl['local']]['ty'] if pl and not pl['proj'] else None
+                        dst = s['rv']['cast']['ty']
+                        if src and src.get('k') == 'rawptr' and dst.get('k') == 'rawptr' \
+                                and json.dumps(src.get('to'), sort_keys=True) == json.dumps(dst.get('to'), sort_keys=True):
+                            continue
                     if 'Transmute' in kind or 'PtrToPtr' in kind or 'Expose' in kind or 'FnPtrToPtr' in kind:
                         out.append(V('CENSUS', 'refuted', b.id, 'cast ' + kind, 'pointer / transmute cast',
                                      s.get('span'), facts.config))
